@@ -183,6 +183,9 @@ def expa_init_post(self, x, y, n, alpha, beta, a, adaptive_smooth, exp, result):
 
 # =============================================================================== LinearFixedRFA.rfa
 
+BEFORE_LOOP0 = 'for k in range(1, x.nr_of_full_intervals() - 1)'
+
+
 def ext_len(self):
     """one virtual interval on each side: (m + 1) * n + 1 samples"""
     return (len(self.x) + 1) * self.n + 1
@@ -215,7 +218,7 @@ def linf_pre(self):
     return series_in(self) and window_fields_fixed(self) and self.a <= self.n
 
 
-@hint(LINF + '.rfa', before='for k in range(1, x.nr_of_full_intervals() - 1)')
+@hint(LINF + '.rfa', before=BEFORE_LOOP0)
 def linf_h_lens(self, x, y, z, n):
     return (n == self.n and x.n == n and y.n == n and z.n == n and len(x.a) == ext_len(self) and len(y.a) == ext_len(self)
             and len(z.a) == ext_len(self) and is_ndarray(z.a) and is_ndarray(x.a))
@@ -258,6 +261,222 @@ def linf_h_xs_grid(self, osx, result):
 @ensures(LINF + '.rfa', uses=['linf_h_xs_grid'])
 def linf_grid(self, result):
     return grid_ok(self.x, self.n, result)
+
+
+# ------------------------------------------------------------------------------- LinearFixedRFA.rfa: values (C05 - C07)
+#
+# Extended grid: interval K = 0 .. m (K = 0 and K = m are the mirrored virtual intervals, interval K = 1 .. m-1 is the original
+# interval K-1).  xe(K, j) is abscissa j of interval K, ye(K) its average.
+
+@opaque
+def xe(self, K, j):
+    return (((2 * self.x[0] - self.x[1]) + j * (self.x[1] - self.x[0]) / self.n) if K == 0 else
+            ((self.x[len(self.x) - 1] + j * (self.x[len(self.x) - 1] - self.x[len(self.x) - 2]) / self.n) if K == len(self.x) else
+             (self.x[K - 1] + j * (self.x[K] - self.x[K - 1]) / self.n)))
+
+
+@opaque
+def ye(self, K):
+    return self.y[0] if K == 0 else (self.y[len(self.x) - 1] if K == len(self.x) else self.y[K - 1])
+
+
+def lf(x, x0, y0, x1, y1):
+    """funfit.lin_fit as a specification function"""
+    return y0 + (y1 - y0) * ((x - x0) / (x1 - x0))
+
+
+def ext_grid(self, xa, ya):
+    """what the two extended arrays hold"""
+    return (len(xa) == ext_len(self) and len(ya) == ext_len(self)
+            and forall(range(len(self.x) + 1), lambda K: forall(range(self.n), lambda j:
+                       xa[K * self.n + j] == xe(self, K, j) and ya[K * self.n + j] == ye(self, K))))
+
+
+def ext_mid(self, xa, ya):
+    return forall(range(1, len(self.x)), lambda K: forall(range(self.n), lambda j:
+                  xa[K * self.n + j] == self.x[K - 1] + j * (self.x[K] - self.x[K - 1]) / self.n and ya[K * self.n + j] == self.y[K - 1]))
+
+
+def ext_left(self, xa, ya):
+    return forall(range(self.n), lambda j: xa[j] == (2 * self.x[0] - self.x[1]) + j * (self.x[1] - self.x[0]) / self.n
+                  and ya[j] == self.y[0])
+
+
+def ext_right(self, xa, ya):
+    return forall(range(self.n), lambda j:
+                  xa[len(self.x) * self.n + j] == self.x[len(self.x) - 1] + j * (self.x[len(self.x) - 1] - self.x[len(self.x) - 2]) / self.n
+                  and ya[len(self.x) * self.n + j] == self.y[len(self.x) - 1])
+
+
+BEFORE_LOOP = 'for k in range(1, x.nr_of_full_intervals() - 1)'
+
+
+@hint(LINF + '.rfa', before=BEFORE_LOOP)
+def linf_h_grid_mid(self, x, y):
+    return ext_mid(self, x.a, y.a)
+
+
+@hint(LINF + '.rfa', before=BEFORE_LOOP)
+def linf_h_grid_left0(self, osx, x):
+    """the mirrored start value in terms of the original abscissae"""
+    return osx[0] == self.x[0] and osx[self.n] == self.x[1] and 2 * osx[0] - osx[self.n] == 2 * self.x[0] - self.x[1]
+
+
+@hint(LINF + '.rfa', before=BEFORE_LOOP)
+def linf_h_grid_left(self, x, y):
+    return ext_left(self, x.a, y.a)
+
+
+@hint(LINF + '.rfa', before=BEFORE_LOOP)
+def linf_h_grid_right(self, x, y):
+    return ext_right(self, x.a, y.a)
+
+
+@hint(LINF + '.rfa', before=BEFORE_LOOP)
+def linf_h_grid(self, x, y, z):
+    return ext_grid(self, x.a, y.a) and forall(range(ext_len(self)), lambda t: z.a[t] == y.a[t])
+
+
+@opaque
+def z0(self, K):
+    """value at the border between the extended intervals K-1 and K: the straight line between the plateau ends of the two
+    intervals, taken at the border (C06)"""
+    return lf(xe(self, K, 0), xe(self, K - 1, self.n - self.a_r), ye(self, K - 1), xe(self, K, self.a_l), ye(self, K))
+
+
+@opaque
+def fvl(self, K, j):
+    """left transition: straight line from the border value to the plateau"""
+    return lf(xe(self, K, j), xe(self, K, 0), z0(self, K), xe(self, K, self.a_l), ye(self, K))
+
+
+@opaque
+def fvr(self, K, j):
+    """right transition: straight line from the plateau to the next border value"""
+    return lf(xe(self, K, j) if j < self.n else xe(self, K + 1, 0), xe(self, K, self.n - self.a_r), ye(self, K), xe(self, K + 1, 0),
+              z0(self, K + 1))
+
+
+@opaque
+def fv(self, K, j):
+    """sample j of the extended interval K as LinearFixedRFA documents it"""
+    return fvl(self, K, j) if j < self.a_l else (ye(self, K) if j <= self.n - self.a_r else fvr(self, K, j))
+
+
+ghost(LINF + '.rfa', before='y_0 = y[k, 0]', name='zk', expr='z.a.copy()')
+
+
+def linf_done(self, za, k):
+    """intervals 1 .. k-1 are final; the border sample of interval k already carries its value; the rest is untouched"""
+    return (forall(range(1, k), lambda K: forall(range(self.n), lambda j: za[K * self.n + j] == fv(self, K, j)))
+            and (za[k * self.n] == z0(self, k) if k > 1 else True))
+
+
+def untouched_from(self, za, ya, start):
+    return forall(range(ext_len(self)), lambda t: za[t] == ya[t] if t >= start else True)
+
+
+@invariant(LINF + '.rfa', loop=1)
+def linf_inv1_values(self, x, y, z, k):
+    return (ext_grid(self, x.a, y.a) and linf_done(self, z.a, k) and untouched_from(self, z.a, y.a, k * self.n + 1)
+            and (z.a[self.n] == y.a[self.n] if k == 1 else True))
+
+
+@hint(LINF + '.rfa', before='for i in range(0, self.a_l)')
+def linf_h_points(self, x, y, k):
+    """the grid points iteration k reads, as instances of the extended-grid fact"""
+    return (x.a[k * self.n] == xe(self, k, 0) and x.a[k * self.n - self.a_r] == xe(self, k - 1, self.n - self.a_r)
+            and x.a[k * self.n + self.a_l] == xe(self, k, self.a_l) and x.a[k * self.n + self.n - self.a_r] == xe(self, k, self.n - self.a_r)
+            and x.a[(k + 1) * self.n] == xe(self, k + 1, 0) and x.a[(k + 1) * self.n + self.a_l] == xe(self, k + 1, self.a_l)
+            and y.a[(k - 1) * self.n] == ye(self, k - 1) and y.a[k * self.n] == ye(self, k) and y.a[(k + 1) * self.n] == ye(self, k + 1))
+
+
+@hint(LINF + '.rfa', before='for i in range(0, self.a_l)')
+def linf_h_order(self, k):
+    """the abscissae iteration k fits between are strictly ordered (so that no fit divides by zero)"""
+    return (xe(self, k - 1, self.n - self.a_r) < xe(self, k, 0) and xe(self, k, 0) < xe(self, k, self.a_l)
+            and xe(self, k, self.a_l) <= xe(self, k, self.n - self.a_r) and xe(self, k, self.n - self.a_r) < xe(self, k + 1, 0)
+            and xe(self, k + 1, 0) < xe(self, k + 1, self.a_l))
+
+
+@hint(LINF + '.rfa', before='for i in range(0, self.a_l)')
+def linf_h_borders(self, x, y, k, y_0, z_0, z_1):
+    """the three scalars of iteration k in terms of the specification functions"""
+    return y_0 == ye(self, k) and z_0 == z0(self, k) and z_1 == z0(self, k + 1)
+
+
+@invariant(LINF + '.rfa', loop=2)
+def linf_inv2_values(self, x, y, z, zk, k, i):
+    return (forall(range(ext_len(self)), lambda t: z.a[t] == zk[t] if t < k * self.n else True)
+            and untouched_from(self, z.a, y.a, k * self.n + (i if i >= 1 else 1))
+            and (z.a[k * self.n] == zk[k * self.n] if i == 0 else True)
+            and forall(range(i), lambda j: z.a[k * self.n + j] == fvl(self, k, j)))
+
+
+@hint(LINF + '.rfa', loop=2, when='head')
+def linf_h2_point(self, x, k, i):
+    return x.a[k * self.n + i] == xe(self, k, i)
+
+
+@hint(LINF + '.rfa', loop=2, when='end')
+def linf_h2_stored(self, z, k, i):
+    """(at the end of the body `i` is the next index: the sample just written is i - 1)"""
+    return z.a[k * self.n + (i - 1)] == fvl(self, k, i - 1)
+
+
+@hint(LINF + '.rfa', loop=3, when='head')
+def linf_h3_point_in(self, x, k, i):
+    return implies(i < self.n, x.a[k * self.n + i] == xe(self, k, i))
+
+
+@hint(LINF + '.rfa', loop=3, when='head')
+def linf_h3_point_end(self, x, k, i):
+    return implies(i == self.n, x.a[(k + 1) * self.n] == xe(self, k + 1, 0) and x.a[k * self.n + i] == x.a[(k + 1) * self.n])
+
+
+
+
+@hint(LINF + '.rfa', loop=3, when='end')
+def linf_h3_stored(self, z, k, i):
+    return z.a[k * self.n + (i - 1)] == fvr(self, k, i - 1)
+
+
+@invariant(LINF + '.rfa', loop=3)
+def linf_inv3_values(self, x, y, z, zk, k, i):
+    return (forall(range(ext_len(self)), lambda t: z.a[t] == zk[t] if t < k * self.n else True)
+            and forall(range(self.a_l), lambda j: z.a[k * self.n + j] == fvl(self, k, j))
+            and forall(range(ext_len(self)), lambda t: z.a[t] == y.a[t]
+                       if (t >= k * self.n + self.a_l and (t < k * self.n + self.n - self.a_r + 1 or t >= k * self.n + i)) else True)
+            and forall(range(self.n - self.a_r + 1, i), lambda j: z.a[k * self.n + j] == fvr(self, k, j)))
+
+
+@hint(LINF + '.rfa', loop=1, when='end')
+def linf_h1_blocks(self, k):
+    """(at the end of the body `k` is the next interval) finished intervals lie entirely before the current one"""
+    return forall(range(1, k - 1), lambda K: K * self.n + self.n <= (k - 1) * self.n)
+
+
+@hint(LINF + '.rfa', loop=1, when='end')
+def linf_h1_frame(self, z, zk, k):
+    return forall(range(1, k - 1), lambda K: forall(range(self.n), lambda j: z.a[K * self.n + j] == zk[K * self.n + j]))
+
+
+@hint(LINF + '.rfa', loop=1, when='end')
+def linf_h1_current(self, z, k):
+    return forall(range(self.n), lambda j: z.a[(k - 1) * self.n + j] == fv(self, k - 1, j))
+
+
+@hint(LINF + '.rfa', loop=1, when='end')
+def linf_h1_border(self, z, k):
+    return z.a[k * self.n] == z0(self, k)
+
+
+@ensures(LINF + '.rfa')
+def linf_values(self, result):
+    """C06: every recreated sample equals the documented closed form (border values = straight line between the plateau ends
+    of the adjacent intervals; straight transitions; plateau at the average)"""
+    return (forall(range(len(self.x) - 1), lambda q: forall(range(self.n), lambda j: result[1][q * self.n + j] == fv(self, q + 1, j)))
+            and result[1][(len(self.x) - 1) * self.n] == z0(self, len(self.x)))
 
 
 # =============================================================================== ExpFixedRFA.rfa (C04 structure)
@@ -360,7 +579,8 @@ def gatp_post(x, y, a, adaptive_smooth, result):
 FITS = ('lin_fit', 'exp_lin_fit', 'lin_exp_xy_fit')
 DEFER_NOTE = 'bounded monitoring of the strategy at run time covers it (finite values on every generated input)'
 
-contract(LINA + '.rfa', params=dict(self=Obj(LINA)), returns=Tuple(Seq(Real), Seq(Real)), defer_call_pre=FITS, defer_note=DEFER_NOTE)
+contract(LINA + '.rfa', params=dict(self=Obj(LINA)), returns=Tuple(Seq(Real), Seq(Real)), defer_call_pre=FITS, defer_note=DEFER_NOTE,
+         merge_branches=True)
 
 
 @requires(LINA + '.rfa')
@@ -423,7 +643,8 @@ def lina_grid(self, result):
 
 # =============================================================================== ExpAdaptiveRFA.rfa (C04 structure)
 
-contract(EXPA + '.rfa', params=dict(self=Obj(EXPA)), returns=Tuple(Seq(Real), Seq(Real)), defer_call_pre=FITS, defer_note=DEFER_NOTE)
+contract(EXPA + '.rfa', params=dict(self=Obj(EXPA)), returns=Tuple(Seq(Real), Seq(Real)), defer_call_pre=FITS, defer_note=DEFER_NOTE,
+         merge_branches=True)
 
 
 @requires(EXPA + '.rfa')
